@@ -22,6 +22,20 @@ def unhx(s):
 
 
 # ----------------------------------------------------------------------------- tools
+def private_copy(exe, prof):
+    import shutil, time
+    d = os.path.join(vlib.BUILD, "concat-bin")
+    os.makedirs(d, exist_ok=True)
+    dst = os.path.join(d, "concat-%s-%d" % (prof, os.getpid()))
+    for _ in range(50):
+        try:
+            shutil.copy2(exe, dst)
+            return dst
+        except (FileNotFoundError, OSError):
+            time.sleep(0.2)
+    return exe
+
+
 class Tools:
     def __init__(self, run, profiles=("dev",)):
         self.run = run
@@ -37,7 +51,9 @@ class Tools:
             if not okh:
                 self.ok = False
                 self.problems.append("harness does not build against /repo (%s): %s" % (prof, logh[-1500:]))
-            self.impl_exe[prof] = exe
+            # other checks rebuild the shared target directory concurrently (the binary can
+            # be missing for a moment while it is re-linked): run a private copy
+            self.impl_exe[prof] = private_copy(exe, prof) if okh else exe
         if not os.path.exists(self.model_exe):
             self.ok = False
 
@@ -177,7 +193,7 @@ def fuel_for(ntasks, total_in, ncaps):
     return (ncaps + 2) * (3 * total_in + 16 * ntasks + 64)
 
 
-def mk_run(members, slicings=None, caps=(BIG,), api="N", init="new", restore="-", finish=True):
+def mk_run(members, slicings=None, caps=(BIG,), api="N", init="new", restore="-", finish=True, percall=False):
     """members: list of bytes; slicings: list (one per member) of size lists, None = one buffer"""
     tasks, total = [], 0
     for i, m in enumerate(members):
@@ -188,10 +204,12 @@ def mk_run(members, slicings=None, caps=(BIG,), api="N", init="new", restore="-"
         total += len(m)
     if finish:
         tasks.append("X")
-    capl = list(caps)
+    # BIG stands for "ample": the model keeps the whole output buffer as a list, so the
+    # ample size is derived from the script instead of being a constant
+    capl = [(total + 4 * len(members) + 16) if c >= BIG else c for c in caps]
     assert any(c > 0 for c in capl)
     fuel = fuel_for(len(tasks), total, len(capl))
-    return "RUN %s %s %s %s %d %s" % (api, init, restore, ",".join(str(c) for c in capl), fuel, " ".join(tasks))
+    return "RUN %s %s %s %s%s %d %s" % (api, init, restore, "p:" if percall else "", ",".join(str(c) for c in capl), fuel, " ".join(tasks))
 
 
 def canon(ans):
